@@ -280,12 +280,28 @@ class ServerSystem:
         o_runwf = basic.run_workflow
 
         async def release(run_id):
-            sysm.log({"e": "release_fire", "rid": run_id})
+            sysm.log({"e": "release_fire", "rid": run_id, "held": bool(getattr(sysm, "hold_release_read", False))})
             sysm._aborted = False
+            sysm._in_release = True
             try:
                 await o_release(run_id)
             finally:
+                sysm._in_release = False
                 sysm.log({"e": "release_done", "rid": run_id, "released": bool(sysm._aborted)})
+
+        # a store with real I/O: the reply to the release task's read of the handler row can be held back by the driver
+        # (hold_release_read) -- the task then sits between its read and its decision, holding the reload lock
+        o_query = sysm.store.query
+
+        async def query(q):
+            res = await o_query(q)
+            if getattr(sysm, "_in_release", False) and getattr(sysm, "hold_release_read", False):
+                sysm.hold_release_read = False
+                sysm.release_gate = sysm.loop.create_future()
+                sysm.log({"e": "release_read_held"})
+                await sysm.release_gate
+            return res
+        sysm.store.query = query
 
         def abort(run_id):
             sysm._aborted = True
@@ -376,6 +392,8 @@ class ServerSystem:
                     ln["gen"] += rec.get("gens", 0)
             rec["lines"] += lines
         TRACES[key]["gens"] = TRACES[key].get("gens", 0) + self.ngen
+        if any(r["e"] == "release_read_held" for r in self.trace):
+            TRACES[key]["held_read"] = True
 
     # ------------------------------------------------------------------ recording
     def now_ms(self):
@@ -515,6 +533,19 @@ class ServerSystem:
         self.log({"e": "send_ext", "hid": hid, "ty": ty, "uid": uid, "ok": ok,
                   "err": "" if ok else (type(t.exception()).__name__ if t.done() else "pending")})
         return t
+
+    def open_release_gate(self):
+        g = getattr(self, "release_gate", None)
+        if g is not None and not g.done():
+            g.set_result(None)
+        self.loop.quiesce()
+
+    def settle_send(self, t, hid, ty, uid):
+        """A send that was still waiting (for the reload lock) when send() returned: log how it ended."""
+        ok = t.done() and t.exception() is None
+        self.log({"e": "send_ext", "hid": hid, "ty": ty, "uid": uid, "ok": ok, "settled": True,
+                  "err": "" if ok else (type(t.exception()).__name__ if t.done() else "pending")})
+        return ok
 
     def send_checked(self, hid):
         """First half of _WorkflowService.send_event: the handler is resolved (and refused if it is terminal).  The awaits
